@@ -106,12 +106,15 @@ func runRate(c RateCase) []ev.Violation {
 			for i := 0; i < c.Offered; i++ {
 				route := c.Route
 				if route == "mixed" {
-					route = []string{"proxy", "provider", "anthropic"}[(k+i)%3]
+					route = []string{"proxy", "provider", "anthropic", "proxy-healthlike"}[(k+i)%4]
 				}
 				var url, body string
 				switch route {
 				case "proxy":
 					url, body = "/olla/proxy/v1/chat/completions", `{"model":"`+rmodel+`","messages":[{"role":"user","content":"x"}]}`
+				case "proxy-healthlike":
+					// a proxied path that merely ends like Olla's own health endpoint
+					url, body = "/olla/proxy/internal/health", `{"model":"`+rmodel+`","messages":[{"role":"user","content":"x"}]}`
 				case "provider":
 					url, body = "/olla/vllm/v1/chat/completions", `{"model":"`+rmodel+`","messages":[{"role":"user","content":"x"}]}`
 				default:
@@ -214,7 +217,7 @@ func genRate(t *rapid.T) RateCase {
 		GlobalMin: rapid.SampledFrom([]int{0, 0, 6000}).Draw(t, "global"),
 		Conns:     rapid.SampledFrom([]int{1, 2, 4, 8}).Draw(t, "conns"),
 		KeepAlive: rapid.Bool().Draw(t, "keepalive"),
-		Route:     rapid.SampledFrom([]string{"proxy", "provider", "anthropic", "mixed"}).Draw(t, "route"),
+		Route:     rapid.SampledFrom([]string{"proxy", "provider", "anthropic", "mixed", "mixed", "proxy-healthlike"}).Draw(t, "route"),
 		Health:    rapid.Bool().Draw(t, "health"),
 		Offered:   rapid.IntRange(30, 80).Draw(t, "offered"),
 		GapUs:     rapid.SampledFrom([]int{0, 500, 5000}).Draw(t, "gap"),
@@ -407,7 +410,7 @@ var _ = net.Dial
 func TestC17(t *testing.T) {
 	defer stopSizeRigs()
 	defer stopFirstRigs()
-	rec.SetRule("rate: one stack per case with fast limits (300..1200/min, burst 1..10, optional global limit); 1..8 concurrent senders each with its own connection(s), keep-alive on/off, proxy/provider/Anthropic/mixed routes, interleaved /internal/health; admitted = requests that reached the recording backend, judged against burst + rate x t + 1 over the over-estimated window [first send, last receive]; refusals must be 429. first: 2..12 requests fired at the same instant over pre-established connections from a client address the limiter has never seen (a fresh 127.a.b.c per case), limit 1/min, burst 1..3: at most burst may be admitted. size: bodies at limit-1, limit, limit+1, 5x limit with Content-Length or chunked framing against max_body_size {1 KiB, 64 KiB} and Anthropic max_message_size {4 KiB, 1 MiB}. non-trivial = >=3x the allowed volume offered over >=2 connections (rate) / chunked body above the limit (size); distinct by case")
+	rec.SetRule("rate: one stack per case with fast limits (300..1200/min, burst 1..10, optional global limit); 1..8 concurrent senders each with its own connection(s), keep-alive on/off, proxy/provider/Anthropic/mixed routes (including proxied paths that end in /internal/health), interleaved /internal/health; admitted = requests that reached the recording backend, judged against burst + rate x t + 1 over the over-estimated window [first send, last receive]; refusals must be 429. first: 2..12 requests fired at the same instant over pre-established connections from a client address the limiter has never seen (a fresh 127.a.b.c per case), limit 1/min, burst 1..3: at most burst may be admitted. size: bodies at limit-1, limit, limit+1, 5x limit with Content-Length or chunked framing against max_body_size {1 KiB, 64 KiB} and Anthropic max_message_size {4 KiB, 1 MiB}. non-trivial = >=3x the allowed volume offered over >=2 connections (rate) / chunked body above the limit (size); distinct by case")
 	rec.Assume("rate: all senders share one client IP (127.0.0.1); the admission window is over-estimated, so a slow machine only loosens the bound")
 	if ev.Replay(t, rec, "rate", runRate) || ev.Replay(t, rec, "size", runSize) || ev.Replay(t, rec, "first", runFirst) {
 		return
